@@ -1,9 +1,11 @@
 package main
 
 import (
+	"fmt"
 	"go/ast"
 	"go/token"
 	"strconv"
+	"strings"
 )
 
 // Facts for C11 (engine kv): the constants of masswallet/db/ldb/leveldb.go that the key encoding is
@@ -53,7 +55,100 @@ func init() {
 		l.Def("bucketPathSep", "List Nat", leanNatList(bytesOf(sep)))
 		l.Def("topLevelBucketDepth", "List Nat", leanNatList(bytesOf(top)))
 		l.Def("maxBucketNameLen", "Nat", strconv.FormatInt(maxLen, 10))
+		// --- read-only transactions read through a snapshot (D9 repair) -------------------------------
+		// (a) BeginReadTx: x, err := l.ldb.GetSnapshot(); the returned transaction has readOnly: true and
+		//     r: x (its reader IS that snapshot); BeginTx has r: l.ldb; Rollback releases tx.snap.
+		fieldOf := func(fd *ast.FuncDecl, field string) string {
+			out := ""
+			if fd == nil {
+				return out
+			}
+			ast.Inspect(fd.Body, func(x ast.Node) bool {
+				if cl, ok := x.(*ast.CompositeLit); ok && c.Src(cl.Type) == "transaction" {
+					for _, e := range cl.Elts {
+						if kv, ok := e.(*ast.KeyValueExpr); ok && c.Src(kv.Key) == field {
+							out = c.Src(kv.Value)
+						}
+					}
+				}
+				return true
+			})
+			return out
+		}
+		beginR := c.Func(rel, "LevelDB", "BeginReadTx")
+		beginW := c.Func(rel, "LevelDB", "BeginTx")
+		rollback := c.Func(rel, "transaction", "Rollback")
+		snapVar := ""
+		if beginR != nil {
+			ast.Inspect(beginR.Body, func(x ast.Node) bool {
+				if as, ok := x.(*ast.AssignStmt); ok && len(as.Rhs) == 1 && len(as.Lhs) >= 1 {
+					if ce, ok := as.Rhs[0].(*ast.CallExpr); ok && strings.HasSuffix(c.Src(ce.Fun), ".ldb.GetSnapshot") {
+						snapVar = c.Src(as.Lhs[0])
+					}
+				}
+				return true
+			})
+		}
+		snapshotTaken := snapVar != "" && fieldOf(beginR, "r") == snapVar && fieldOf(beginR, "readOnly") == "true"
+		writerLive := strings.HasSuffix(fieldOf(beginW, "r"), ".ldb") && fieldOf(beginW, "readOnly") == "false"
+		released := false
+		if rollback != nil {
+			for _, call := range isoCallsIn(c, rollback.Body) {
+				if strings.HasSuffix(call, ".snap.Release") {
+					released = true
+				}
+			}
+		}
+		// (b) every read path of the model goes to tx.r; nothing but BeginTx / BeginReadTx / Commit /
+		//     Close / newLevelDB touches the live handle or the snapshot field directly
+		readFns := [][2]string{{"transaction", "bucketExists"}, {"transaction", "BucketNames"}, {"levelBucket", "BucketNames"},
+			{"", "deleteBucket"}, {"levelBucket", "Get"}, {"levelBucket", "Clear"}, {"levelBucket", "GetByPrefix"},
+			{"levelBucket", "NewIterator"}}
+		var rows []string
+		allThrough := true
+		for _, fn := range readFns {
+			n := 0
+			if fd := c.Func(rel, fn[0], fn[1]); fd != nil {
+				for _, call := range isoCallsIn(c, fd.Body) {
+					if strings.HasSuffix(call, "tx.r.Get") || strings.HasSuffix(call, "tx.r.NewIterator") {
+						n++
+					}
+				}
+			}
+			if n == 0 {
+				allThrough = false
+			}
+			rows = append(rows, fmt.Sprintf("(%s, %d)", leanStr(fn[0]+"."+fn[1]), n))
+		}
+		bypass := 0
+		if f := c.File(rel); f != nil {
+			for _, d := range f.Decls {
+				fd, ok := d.(*ast.FuncDecl)
+				if !ok || fd.Body == nil {
+					continue
+				}
+				for _, call := range isoCallsIn(c, fd.Body) {
+					for _, suf := range []string{".ldb.Get", ".ldb.NewIterator", ".snap.Get", ".snap.NewIterator", ".ldb.Has"} {
+						if strings.HasSuffix(call, suf) {
+							bypass++
+						}
+					}
+				}
+			}
+		} else {
+			bypass = 1
+		}
+		l.Raw("/-- BeginReadTx takes a goleveldb snapshot and makes it the transaction's reader; BeginTx reads the live handle; Rollback releases the snapshot -/")
+		l.Def("readTxSnapshot", "Bool", fmt.Sprint(snapshotTaken && writerLive && released))
+		l.Raw("/-- (read function of leveldb.go, number of reads it makes through tx.r) -/")
+		l.Def("readsThroughReader", "List (String × Nat)", "["+strings.Join(rows, ", ")+"]")
+		l.Raw("/-- reads of the committed state that bypass tx.r (directly on l.ldb or tx.snap) -/")
+		l.Def("readsBypassingReader", "Nat", fmt.Sprint(bypass))
 		l.Write(c, "Kv.lean")
+		c.check("kv.readTxSnapshot", snapshotTaken && writerLive && released,
+			fmt.Sprintf("the model's read transaction reads a snapshot taken at BeginReadTx, the code no longer does (GetSnapshot result is the reader of BeginReadTx: %v, BeginTx reads l.ldb: %v, Rollback releases tx.snap: %v)", snapshotTaken, writerLive, released))
+		c.check("kv.readsThroughReader", allThrough && bypass == 0,
+			fmt.Sprintf("a read path of leveldb.go does not go through tx.r (per function: %s; reads directly on l.ldb / tx.snap: %d)", strings.Join(rows, " "), bypass))
 		c.check("kv.constants", ok1 && ok2 && ok3 && ok4, "bucketNameBucket / bucketPathSep / topLevelBucketDepth / maxBucketNameLen not found as constants in "+rel)
 		c.check("kv.separatorOneByte", ok2 && len(sep) == 1, "bucketPathSep is not a single byte: the model's split/join work on one separator byte")
 		c.check("kv.topDepthIsItoa1", ok3 && top == strconv.Itoa(1), "topLevelBucketDepth is not strconv.Itoa(1): top-level paths would not follow the <depth>_<names> scheme of sub buckets")
